@@ -33,6 +33,11 @@ var solvers = []SolverCfg{
 	{"z3-new-5.1.0-mbqi", func(f string, to int, seed int) []string {
 		return []string{"z3-new", fmt.Sprintf("smt.random_seed=%d", seed), fmt.Sprintf("-T:%d", to), f}
 	}},
+	// relevancy filtering off: terms inside the untaken branch of a disjunction still trigger instantiations (a point set
+	// is "AllowAll or the per-protocol intervals", and the triggers of the point-set quantifiers sit in the second disjunct)
+	{"z3-new-5.1.0-rel0", func(f string, to int, seed int) []string {
+		return []string{"z3-new", "smt.mbqi=false", "auto_config=false", "smt.relevancy=0", fmt.Sprintf("smt.random_seed=%d", seed), fmt.Sprintf("-T:%d", to), f}
+	}},
 }
 
 var coverSolvers = []SolverCfg{
@@ -186,7 +191,7 @@ func (s *Solver) discharge(ob *Obligation, query string, stage int) {
 	}
 	// stage 2: a goal that is a conjunction is first tried conjunct by conjunct (and path by path) - when the whole did
 	// not go through in stage 1 this is usually what works, and it is cheaper than waiting for the race to time out
-	if !ob.Cover && ob.split == nil && len(splitConj(ob.Goal)) > 1 {
+	if !ob.Cover && !ob.Short && ob.split == nil && len(splitConj(ob.Goal)) > 1 {
 		s.buildSplit(ob)
 		if len(ob.split) > 0 && s.splitDischarge(ob) {
 			os.MkdirAll(filepath.Dir(cacheFile), 0o755)
@@ -244,7 +249,7 @@ func (s *Solver) discharge(ob *Obligation, query string, stage int) {
 	}
 	var ag []string
 	// last resort: one query per join path and per top-level conjunct of the goal (built only now: it is costly)
-	if !ob.Cover && ob.split == nil {
+	if !ob.Cover && !ob.Short && ob.split == nil {
 		s.buildSplit(ob)
 	}
 	if len(ob.split) > 0 && s.splitDischarge(ob) {
@@ -338,7 +343,7 @@ func (s *Solver) DischargeAll(obs []*Obligation, par int) {
 	// the time - a solver starved by a loaded machine must not turn into an alarm.
 	var again []int
 	for i, ob := range obs {
-		if ob.Status == "undecided" && !ob.Cover && !strings.HasPrefix(ob.Solver, "function outside") {
+		if ob.Status == "undecided" && !ob.Cover && !ob.Short && !strings.HasPrefix(ob.Solver, "function outside") {
 			again = append(again, i)
 		}
 	}
